@@ -18,12 +18,30 @@ pub const NS_W: usize = 8;
 pub const NAME_WE: usize = 20; // element e in NS_W
 pub const NAME_WA: usize = 21; // attribute w in NS_W
 
+/// The xmlns namespace name: nothing can be bound to it (the parser rejects such a declaration).
+pub const XMLNS_URI: &str = "http://www.w3.org/2000/xmlns/";
+pub const NS_XMLNS: usize = 9;
+
 pub fn ser_vocab(xot: &mut Xot) -> Vocab {
     let mut v = Vocab::standard(xot);
     assert_eq!(v.add_ns(xot, WEIRD_URI), NS_W);
     assert_eq!(v.add_name(xot, "e", NS_W), NAME_WE);
     assert_eq!(v.add_name(xot, "w", NS_W), NAME_WA);
+    assert_eq!(v.add_ns(xot, XMLNS_URI), NS_XMLNS);
     v
+}
+
+/// What the generator promises about a tree.
+#[derive(Clone, Copy, Debug, PartialEq, Eq)]
+pub enum Domain {
+    /// in the round-trip domain (`Representable` of Model/SerTokens.lean)
+    Representable,
+    /// outside, nothing promised
+    Outside,
+    /// outside for ONE reason, with a precise expectation (ser_oracle::check_outside): a comment /
+    /// PI data with a CR (written as it is, read back as LF), or a namespace node the parser rejects
+    /// (`xmlns:p=""`, a binding to the xmlns namespace name: the output does not parse)
+    OutsideCrOrRejectedDeclaration,
 }
 
 /// One serialisation event with numeric ids (the wire form of `Output`).
@@ -224,6 +242,7 @@ pub struct Case<'a> {
     pub start: Node,
     pub paths: HashMap<Node, String>,
     pub representable: bool,
+    pub domain: Domain,
 }
 
 fn path_of(paths: &HashMap<Node, String>, n: Node) -> String {
@@ -318,6 +337,11 @@ pub fn join_ok(items: impl Iterator<Item = String>) -> String {
 }
 
 pub fn run_tree(t: &GTree, representable: bool, start_path: &[usize], params: &[Params], sink: &mut Sink) {
+    run_tree_in(t, if representable { Domain::Representable } else { Domain::Outside }, start_path, params, sink)
+}
+
+pub fn run_tree_in(t: &GTree, domain: Domain, start_path: &[usize], params: &[Params], sink: &mut Sink) {
+    let representable = domain == Domain::Representable;
     let mut xot = Xot::new();
     let vocab = ser_vocab(&mut xot);
     let root = match build(&mut xot, &vocab, t, true) {
@@ -351,7 +375,7 @@ pub fn run_tree(t: &GTree, representable: bool, start_path: &[usize], params: &[
         }
     ));
     for p in params {
-        let mut case = Case { xot: &mut xot, vocab: &vocab, tree: t, root, start_path: start_path.to_vec(), start, paths: paths.clone(), representable };
+        let mut case = Case { xot: &mut xot, vocab: &vocab, tree: t, root, start_path: start_path.to_vec(), start, paths: paths.clone(), representable, domain };
         let obs = observe(&case, p, sink);
         ser_oracle::check(&mut case, p, &obs, sink);
     }
@@ -390,6 +414,15 @@ fn corpus(sink: &mut Sink) {
     run_tree(&GTree::leaf(Document), true, &[], &[dt.clone()], sink);
     run_tree(&sub, true, &[0, 3], &[dt.clone()], sink);
     run_tree(&sub, true, &[], &[dt.clone()], sink);
+    // outside the round-trip domain with a precise expectation: CR in a comment / PI data, a
+    // prefix bound to the empty name, bindings to the xmlns namespace name
+    let od = Domain::OutsideCrOrRejectedDeclaration;
+    run_tree_in(&GTree::new(Document, vec![e(2, vec![GTree::leaf(Comment("x\r\ny".into())), GTree::leaf(PI(17, Some("x\ry".into())))])]), od, &[], &[plain.clone(), indent.clone()], sink);
+    run_tree_in(&GTree::new(Document, vec![GTree::leaf(Comment("\r".into())), e(2, vec![])]), od, &[], &[plain.clone()], sink);
+    run_tree_in(&GTree::new(Document, vec![e(2, vec![GTree::leaf(Namespace(2, 0)), e(3, vec![])])]), od, &[], &[plain.clone()], sink);
+    run_tree_in(&GTree::new(Document, vec![e(2, vec![GTree::leaf(Namespace(2, 0)), e(3, vec![])])]), od, &[0, 1], &[plain.clone()], sink);
+    run_tree_in(&GTree::new(Document, vec![e(2, vec![GTree::leaf(Namespace(2, NS_XMLNS))])]), od, &[], &[plain.clone()], sink);
+    run_tree_in(&GTree::new(Document, vec![e(2, vec![e(3, vec![GTree::leaf(Namespace(0, NS_XMLNS))])])]), od, &[], &[plain.clone()], sink);
     // two prefixes bound to the root element's namespace: doctype name vs start tag
     run_tree(&GTree::new(Document, vec![e(6, vec![GTree::leaf(Namespace(4, NS_A)), GTree::leaf(Namespace(3, NS_A))])]), true, &[], &[dt.clone()], sink);
 }
@@ -460,7 +493,7 @@ pub fn run(seed: u64, count: usize, tier: &str, sink: &mut Sink) {
     let elem_names: Vec<usize> = GenCfg::default_cfg().elem_names;
     let search = tier == "search";
     for _ in 0..count {
-        let (t, representable) = {
+        let (t, domain) = {
             let mut xot = Xot::new();
             let vocab = ser_vocab(&mut xot);
             gen_tree(&mut rng, sink, &vocab)
@@ -471,6 +504,6 @@ pub fn run(seed: u64, count: usize, tier: &str, sink: &mut Sink) {
         if rng.chance(1, 2) || search {
             params.push(gen_params(&mut rng, &elem_names));
         }
-        run_tree(&t, representable, &start_path, &params, sink);
+        run_tree_in(&t, domain, &start_path, &params, sink);
     }
 }
